@@ -25,6 +25,7 @@ import (
 	"errors"
 	"fmt"
 	"net/rpc"
+	"runtime/metrics"
 	"strings"
 	"testing"
 
@@ -32,6 +33,16 @@ import (
 )
 
 var errC16Stall = errors.New("c16: no more bytes in flight")
+
+// cumulative bytes allocated on the heap (cheap to read)
+func c16Allocated() uint64 {
+	s := []metrics.Sample{{Name: "/gc/heap/allocs:bytes"}}
+	metrics.Read(s)
+	if s[0].Value.Kind() == metrics.KindUint64 {
+		return s[0].Value.Uint64()
+	}
+	return 0
+}
 
 // ---- message bodies ----
 
@@ -212,6 +223,7 @@ type c16Out struct {
 	paySame  bool
 	payload  []byte
 	errText  string
+	alloc    uint64 // bytes the real codec allocated during this receive
 	// what gob itself does on this part of the stream
 	c1, n1, c2, n2 int
 	gobSame        bool
@@ -281,10 +293,12 @@ func (r *c16Receiver) recvOne(want *c16Msg, bulk bool, buf []byte) (out c16Out) 
 		}
 	}
 	// 2. the real codec
+	alloc0 := c16Allocated()
 	defer func() {
 		if p := recover(); p != nil {
 			out.class, out.errText = 8, fmt.Sprint(p)
 		}
+		out.alloc = c16Allocated() - alloc0
 	}()
 	var hdr interface{}
 	if r.isReq {
@@ -407,13 +421,14 @@ func c16Pattern(r *vw.Rng, s []byte, pos, l, kind int) uint64 {
 // ---- monitors ----
 
 type c16Ctx struct {
-	caseID   string
-	class    string
-	tampered bool
-	cut      bool // the stream was cut short (no byte altered)
-	hadErr   bool // an earlier message on this connection was rejected with a body-level error
-	dmgLo    int // damaged bit range in the stream [dmgLo, dmgHi)
-	dmgHi    int
+	caseID    string
+	class     string
+	tampered  bool
+	cut       bool // the stream was cut short (no byte altered)
+	hadErr    bool // an earlier message on this connection was rejected with a body-level error
+	overAlloc bool // a receive allocated far more than the stream holds
+	dmgLo     int  // damaged bit range in the stream [dmgLo, dmgHi)
+	dmgHi     int
 }
 
 func c16Report(ctx *c16Ctx, sig, what string, detail map[string]interface{}) {
@@ -477,6 +492,13 @@ func c16Judge(ctx *c16Ctx, stream []byte, msgs []*c16Msg, idx int, o *c16Out, bu
 		return
 	}
 	// damaged stream
+	if len(stream) < 1<<20 && o.alloc > 64<<20 {
+		// (encoding/gob itself allocates at most 10 MiB ahead of the data it has actually received)
+		det["allocated"] = o.alloc
+		ctx.overAlloc = true
+		c16Report(ctx, "tampered-unverified-length-allocated",
+			"damaged stream: the receiver allocated a buffer for a length it had not verified", det)
+	}
 	if o.class == 1 {
 		after := ""
 		if ctx.hadErr {
@@ -699,6 +721,7 @@ func TestVerifC16(t *testing.T) {
 	tr := vw.OpenTrace("C16.trace")
 	defer tr.Close()
 	defer vw.Finish("C16")
+	vw.Sample(fmt.Sprintf("C16 codec harness, seed %d, thorough=%v", vw.Seed(), vw.Thorough()))
 	ci := 0
 	next := func(class string) (string, *vw.Rng, bool) {
 		id := fmt.Sprintf("%d", ci)
@@ -720,7 +743,16 @@ func TestVerifC16(t *testing.T) {
 				if n < 0 {
 					continue
 				}
-				buf := GetBuffer(n)
+				var buf []byte
+				func() {
+					defer func() {
+						if p := recover(); p != nil {
+							buf = nil
+							vw.Report(vw.Violation{Property: "C16", Signature: "pool/panic", What: fmt.Sprintf("GetBuffer(%d) panicked: %v", n, p), Case: id})
+						}
+					}()
+					buf = GetBuffer(n)
+				}()
 				tr.Op(5, int64(n))
 				tr.Obs(int64(len(buf)), int64(cap(buf)))
 				if cap(buf) < n || len(buf) != n {
@@ -873,8 +905,8 @@ func TestVerifC16(t *testing.T) {
 		}
 		nbits := len(m2.frame) * 8
 		probe := func(pos, l int, pat uint64) {
-			if pat == 0 {
-				return
+			if pat == 0 || ctx.overAlloc {
+				return // (after one over-allocation the point is made; do not spend gigabytes on the rest of the sweep)
 			}
 			dmg := c16XorAt(stream, m2.start*8+pos, pat)
 			rc := c16NewReceiver(isReq, dmg, 0)
